@@ -142,13 +142,13 @@ func (r *rebuilder) copy(dst, src reflect.Value) {
 
 // Mutation describes a single change applied by Mutate1.
 type Mutation struct {
-	Kind    string // leaf | nil | len | key
-	Path    string
-	Old     reflect.Value // leaf: old leaf; key: old key
-	New     reflect.Value
-	WasNil  bool // nil: the original side was nil
-	InKey   bool // the position lies inside a map key
-	ViaUser bool // a type with a user Equal/Compare method lies on the path (root excluded)
+	Kind     string // leaf | nil | len | key
+	Path     string
+	Old      reflect.Value // leaf: old leaf; key: old key
+	New      reflect.Value
+	WasNil   bool // nil: the original side was nil
+	InKey    bool // the position lies inside a map key
+	ViaUser  bool // a type with a user Equal/Compare method lies on the path (root excluded)
 	RootUser bool
 }
 
